@@ -103,8 +103,22 @@ def check(run: common.Run):
                               "case": gitems[i]})
     hist["fix/chain loop cases"] = len(gitems)
 
+    # (b') the orientation heuristic vs DriverModel.orelse_preferred (T09.7)
+    oitems = drv.orientation_cases(mods)
+    bad, errs = drv.run_simple_cases(wd, "orient", "orient_case", "orient_case_ok",
+                                     [drv.orient_case_to_coq(it) for it in oitems])
+    disagreements += errs
+    for i in bad:
+        disagreements.append({"kind": "correspondence", "kernel": "K7 orelse_preferred (fixes._orelse_preferred_as_body)",
+                              "case": oitems[i]})
+    for it in oitems:
+        if it["impl"] is None:
+            disagreements.append({"kind": "correspondence", "kernel": "K7 _orelse_preferred_as_body raised", "case": it})
+    hist["orientation pairs"] = len(oitems)
+
     # (c) format_files bookkeeping
-    fcases = drv.files_cases(rnd, 150 if run.tier == "quick" else 3000, tb["MAX_MODULE_PASSES"])
+    fcases = drv.files_cases(rnd, 150 if run.tier == "quick" else 3000, tb["MAX_MODULE_PASSES"],
+                             thin=2 if run.tier == "quick" else 1)
     fobs = [drv.run_format_files(mods, wd, c) for c in fcases]
     bad, errs = drv.run_simple_cases(wd, "files", "files_case", "files_case_ok",
                                      [drv.files_case_to_coq(c, o) for c, o in zip(fcases, fobs)], shard=400)
@@ -129,10 +143,30 @@ def check(run: common.Run):
     # ---- sweep (not proof): x, f(x), ..., f^7(x)
     fam = sw.build_corpus(run.tier)
     iters = BUDGET + 2
-    budget = 35 if run.tier == "quick" else 1200
+    budget = 30 if run.tier == "quick" else 1200
     deadline = time.time() + budget
     jobs, meta = [], {}
-    step = {"quick": {"repo": 5, "functions": 3, "constructs": 2, "eof": 1}, "thorough": {}}[run.tier]
+    # orientation x layout x line length, bracketed lines of 55..70 columns (seeds C09-a, C09-b) come first
+    widths = (60, 79, 100)
+    for i, (tag, s) in enumerate(sw.bracket_width_family()):
+        for w in widths:
+            jid = len(jobs)
+            jobs.append((jid, s, dict(sw.OPTION_COMBOS[(i + w) % 8], max_line_length=w), iters))
+            meta[jid] = "brackets:" + tag
+    for i, (tag, s) in enumerate(sw.orientation_family()):
+        if run.tier == "thorough":
+            ws = widths
+        elif "/L4/" in tag and i % 3:
+            ws = ()
+        elif tag.startswith("long"):
+            ws = (60, 100) if "if-" in tag and i % 2 == 0 else (79,) if i % 2 else ()
+        else:
+            ws = (widths[i % 3],) if "if-" in tag or i % 4 == 0 else ()
+        for w in ws:
+            jid = len(jobs)
+            jobs.append((jid, s, dict(sw.OPTION_COMBOS[i % 8], max_line_length=w), iters))
+            meta[jid] = "orientation:" + tag
+    step = {"quick": {"repo": 12, "functions": 8, "constructs": 5, "eof": 3}, "thorough": {}}[run.tier]
     for name in ("functions", "repo", "constructs", "eof"):
         srcs = [s for s in fam[name] if sw.valid(s)][::step.get(name, 1)]
         for i, s in enumerate(srcs):
@@ -177,7 +211,7 @@ def check(run: common.Run):
                        "explanation": "a property theorem no longer checks"}, have_input)
 
     run.coverage.update(
-        evaluations=fc["evaluations"] + len(gitems) + len(fcases) + 4 ** 4 * 4,
+        evaluations=fc["evaluations"] + len(gitems) + len(fcases) + 4 ** 4 * 4 + len(oitems),
         distinct_nontrivial=fc["distinct"] + sum(1 for o in fobs if len(o["passes"]) >= 2),
         rule=("correspondence cases: (a) main.format_code with every stage replaced by a table lookup over a "
               "4-text universe: ALL f : 4 -> 4 on one stage of _multi_run_fixes x 4 start texts x keep_imports "
@@ -186,14 +220,14 @@ def check(run: common.Run):
               "(budget exhaustion of either loop), seeded random scripts; result text, full stage trace and preserve "
               "set must equal DriverModel.format_code_run; (b) processing.fix / chain with a scripted rule: all "
               "f : 4 -> 4 x 4 starts x {max_iter 4, default fix, default chain}; (c) main.format_files with format_file "
-              "scripted: all pairs of tables 3 -> 3 on two folders x max_passes in {1,MAX} (every 4th pair for {0,2}), chains beyond the "
+              "scripted: all pairs of tables 3 -> 3 on two folders x max_passes in {1,MAX} (every 4th pair for {0,2}; quick tier: every 2nd of those), chains beyond the "
               "budget, seeded random folder layouts; per-pass file sets, final contents, return value; 5 cases "
               "through the real multiprocessing pool. Non-trivial = >= 2 multi-run passes with a distinct "
               "(trace, result) / >= 2 format_files passes."),
         samples=fc["samples"][:2] + [{"format_files": {"max_passes": fcases[40][0], "folders": fcases[40][1]},
                                       "impl": fobs[40]}],
-        exhaustive=True,
-        exhaustive_parts={"format_code_f4x4": True, "fix_f4x4": True, "format_files_pairs_3x3": True},
+        exhaustive=run.tier != "quick",
+        exhaustive_parts={"format_code_f4x4": True, "fix_f4x4": True, "format_files_pairs_3x3": run.tier != "quick"},
         histogram=dict(hist) | {"format_code scripted: " + k: v for k, v in fc["histogram"].items()},
         correspondence_disagreements=len(disagreements) + n_more,
         sweep=dict(sweep) | {"jobs": len(jobs), "iterations": iters,
@@ -227,8 +261,9 @@ def replay(path: str) -> int:
         for _ in range(BUDGET + 2):
             mods["core"].parse.cache_clear()
             with common.quiet():
+                kw = {"max_line_length": o["max_line_length"]} if o.get("max_line_length") else {}
                 cur = mods["main"].format_code(cur, safe=o["safe"], keep_imports=o["keep_imports"],
-                                               preserve=frozenset(o["preserve"]))
+                                               preserve=frozenset(o["preserve"]), **kw)
             seq.append(cur)
         print("verdict:", sequence_verdict(c["source"], seq, BUDGET + 2))
         for i, x in enumerate(seq):
